@@ -167,6 +167,7 @@ type loopTable struct {
 	Strict    epResult   `json:"strict_parse"`
 	StrictCtx epResult   `json:"strict_ctx"`
 	StrictPos epResult   `json:"strict_pos"`
+	TokPos    [][2]int   `json:"tok_pos,omitempty"` // (line, column) of each converted token in the text that was passed in
 }
 
 type psEntry struct {
@@ -225,6 +226,11 @@ func buildLoopTable(sql string, maxTok int) loopTable {
 		}
 	}
 	lt.Kinds = string(kinds)
+	if cr, cerr := parser.VerifConvertModelTokensWithPositions(mt); cerr == nil && len(cr.PositionMapping) == len(toks) {
+		for _, tp := range cr.PositionMapping {
+			lt.TokPos = append(lt.TokPos, [2]int{tp.Start.Line, tp.Start.Column})
+		}
+	}
 	for p := 0; p < len(toks); p++ {
 		var e psEntry
 		ps := parser.NewParser()
